@@ -11,8 +11,9 @@ META = {
             "vm_never_panics_partial (VM.run of a compiled program of the fragment {send from account|overdraft|max|in-order sources to an account, save, "
             "set_tx_meta, set_account_meta, print, fail}: no wrong-typed or empty pop, no BUMP out of range, no nil balance map or nil amount, stack empty at the "
             "end, metadata renderable). Ties: the compiler+VM models equal the real ones on every generated case (bytecode equality, outcome incl. panic/no "
-            "panic), Spec vs compiler+VM with a recovered Go panic as an outcome, every compiled program run twice under a watchdog, a byte-level stream into the "
-            "real parser.",
+            "panic), Spec vs compiler+VM with a recovered Go panic as an outcome, every compiled program run twice under a watchdog, the whole case list "
+            "executed again in the opposite order in a second process (an outcome that depends on the cases executed before it = state left behind; replay = "
+            "the earlier case + the case), a byte-level stream into the real parser (errors rendered).",
     "note": "PARTIAL: vm_never_panics is proved for the fragment; for allotments and ordered destinations (MAKE_ALLOTMENT, ALLOC, BUMP n, kept) and for the ANTLR "
             "parser, crash-freedom is observed on the sampled inputs (model and real VM agree on panic/no panic everywhere), not proved. Trusted: Lean kernel; "
             "harness; watchdog timeout = hang.",
@@ -48,14 +49,20 @@ def run(ctx):
             proj_impl=lambda i, o: {"panic": True} if "panic" in o else {k: v for k, v in strip(o).items() if k not in ("lockR", "lockW")},
             proj_model=lambda i, o: {k: v for k, v in o.items() if k not in ("lockR", "lockW")})
     seen, nontrivial = set(), 0
+    rp = Replays(ctx, inputs)
     for inp in inputs:
         out = impl.get(inp["id"], {})
         if "panic" in out:
-            ctx.violation({"property": "C12", "class": "panic", "message": panic_kind(out["panic"])},
-                          "the engine panicked: %s" % out["panic"], {"area": "numscript", "input": inp, "observed": out})
+            rp.violation({"property": "C12", "class": "panic", "message": panic_kind(out["panic"])},
+                         "the engine panicked: %s" % out["panic"], inp, out, lambda o: "panic" in o)
         if "unstable" in out:
-            ctx.violation({"property": "C12", "class": "leaves-state-behind"}, "second execution of the same compiled program differs",
-                          {"area": "numscript", "input": inp, "observed": out})
+            rp.violation({"property": "C12", "class": "leaves-state-behind"}, "second execution of the same compiled program differs",
+                         inp, out, lambda o: "unstable" in o)
+    # all cases again in the opposite order, in another process: no outcome may depend on what ran before it
+    ctx.cov["order_dependent_outcomes"] = order_dependence(ctx, inputs, impl, rp, "C12", "leaves-state-behind")
+    ctx.cov["replay_isolation"] = dict(rp.stats)
+    for inp in inputs:
+        out = impl.get(inp["id"], {})
         h = shash(inp["text"])
         if h not in seen and out.get("err") != "compile_error":
             nontrivial += 1
